@@ -11,9 +11,9 @@
       local defined only by fresh-allocating conversions, not mentioned after the Discard, never
       stored / captured / handed to something that may keep it), and the conversions return a
       `value.New*` result on every path;
-    * `ast_readonly_except_known` — no assignment of lib/query writes through a `parser.*` value into
-      memory shared with the stored program, except the site of pre-finding F8;
-      `ast_write_counterexample` / `ast_copy_ok` model that site.
+    * `ast_readonly` — no assignment of lib/query writes through a `parser.*` value into memory
+      shared with the stored program; `ast_write_counterexample` / `ast_copy_ok` show in the model
+      why such a write is observable and why writing to a private copy is not.
 
   Trusted (named in the evidence): the extractor's step "syntactic fact ⇒ behaviour of the running
   program" (in particular: callees that receive a syntax tree or a value do not modify / keep it
@@ -89,22 +89,17 @@ theorem conversions_fresh :
 
 /-! ## 3. Syntax trees -/
 
-/-- Pre-finding F8 (DESIGN.md §7): `Analyze` stores `fn.Args[0] = parser.NewIntegerValue(1)` through the
-    argument slice it shares with the stored program (`COUNT(*) OVER ()`). -/
-def knownAstWrites : List String := ["astwrite:analytic_function.go:Analyze:fn.Args[0]"]
+/-- **ast_readonly.**  No assignment (nor `copy` / in-place sort) of lib/query writes through a
+    `parser.*` value into memory shared with the stored program: every such write stays in a local
+    struct copy or in memory made in the same function (`Gen.astLocalWrites`).  (Pre-finding F8 —
+    `Analyze` storing `fn.Args[0]` through the shared argument slice — was repaired in /repo, commit
+    02f8662; a new shared write makes this obligation fail and is reported by vt/p_c14.py as
+    `astwrite:<file>:<function>:<lhs>`.) -/
+theorem ast_readonly : Gen.astWriteFacts = [] := by decide
 
-/- The full statement (holds once F8 is repaired in /repo; then `knownAstWrites` becomes `[]`):
-
-     theorem ast_readonly : Gen.astWriteFacts = [] := by decide                                  -/
-
-/-- **ast_readonly_except_known.**  No assignment of lib/query writes through a `parser.*` value into
-    memory shared with the stored program, outside the known site. -/
-theorem ast_readonly_except_known :
-    Gen.astWriteFacts.all (fun f => knownAstWrites.contains f.site) = true := by decide
-
-/-- The F8 mechanism in the model: with the in-place store the select clause no longer finds the
-    function under the identifier registered a moment earlier (csvq answers "analytic function COUNT is
-    only available in select clause or order by clause"), and the program text has changed. -/
+/-- Why read-only trees matter (a statement about the MODEL): with an in-place store into the shared
+    argument list the select clause no longer finds the function under the identifier registered a
+    moment earlier, and the program text has changed (the shape of the repaired defect F8). -/
 theorem ast_write_counterexample (rest : List Arg) :
     lookupFinds (analyzeInPlace (.allColumns :: rest)) = false ∧
     (analyzeInPlace (.allColumns :: rest)).2 ≠ .allColumns :: rest := by
